@@ -378,6 +378,7 @@ STORE_CASES = {
     'ChainControl.add_single_site_control': ('control.ChainControl.add_single_site_control', 'control.ChainControl',
                                              {'_hs_dims': None, '_single_site_controls_pre': [], '_single_site_controls_post': []},
                                              None),
+    'Control.add_single[step]': ('control.Control.add_single', 'control.Control', {}, None),
 }
 
 
@@ -408,6 +409,13 @@ def scen_store(case, variant):
             a = caller_array('control', (d * d, d * d), variant[0], variant[1])
             arrays.append(a)
             args, kw = [a, 1, 3], {'post': Bool('post')}
+        elif case.startswith('Control.add_single'):
+            d = dims(ip, 'hs_dim')[0]
+            self_ = mkobj(repo, cls, _dimension=d, _step_controls={'pre': {}, 'post': {}}, _time_controls={'pre': {}, 'post': {}},
+                          _control_times={'pre': Seq(z3.IntVal(0), lambda i: z3.RealVal(0), 'ndarray'), 'post': Seq(z3.IntVal(0), lambda i: z3.RealVal(0), 'ndarray')})
+            a = caller_array('control_operation', (d * d, d * d), variant[0], variant[1])
+            arrays.append(a)
+            args, kw = [(3 if case.endswith('[step]') else 0.3), a], {'post': Bool('post')}
         else:
             args, kw = mk(ip, variant, A)
             self_ = None
